@@ -19,6 +19,7 @@ let rec int_of_nat (n : nat) : int = match n with O -> 0 | S m -> 1 + int_of_nat
 
 let zs (x : z) : string = string_of_int (int_of_z x)
 let zlist_of_ints (l : int list) : z list = List.map z_of_int l
+let ints_of_zl (l : z list) : int list = List.map int_of_z l
 let nlist_of_ints (l : int list) : n list = List.map n_of_int l
 
 let hexval c = match c with '0'..'9' -> Char.code c - 48 | 'a'..'f' -> Char.code c - 87 | 'A'..'F' -> Char.code c - 55 | _ -> 0
